@@ -91,6 +91,29 @@ func (p *rd) expr() (*Val, error) {
 		v.Quoted = true
 		v.Pos = pos
 		return v, nil
+	case c == '#' && p.i+1 < len(p.s) && (p.s[p.i+1] == '\'' || p.s[p.i+1] == '^'):
+		// #'name is (function name), #^form is (expr form)  (lang.md "Unbound expressions", docstring of function)
+		p.adv()
+		head := "lisp:function"
+		if p.adv() == '^' {
+			head = "lisp:expr"
+		}
+		v, err := p.expr()
+		if err != nil {
+			return nil, err
+		}
+		if head == "lisp:expr" && v.K == KList && !v.Quoted {
+			for _, c := range v.Cells {
+				if c.K == KList && !c.Quoted && len(c.Cells) > 0 {
+					// lang.md introduces #^ only for flat templates; the real reader refuses nested ones
+					return nil, fmt.Errorf("#^ with a nested expression is outside the reference grammar")
+				}
+			}
+		}
+		if head == "lisp:function" && v.K != KSym {
+			return nil, fmt.Errorf("#' before a non-symbol is outside the reference grammar")
+		}
+		return &Val{K: KList, Pos: pos, Cells: []*Val{{K: KSym, S: head, Pos: pos}, v}}, nil
 	case c == '(' || c == '[':
 		p.adv()
 		closer := byte(')')
